@@ -278,7 +278,19 @@ Inductive ks_op :=
 | OWait (d : N).
 
 (* getDecryptedKey succeeds: the account is still in the cache / on disk and GetKey accepts p *)
-Definition authenticates (a : acct) (p : bytes) : bool := a_exists a && bytes_eqb p (a_pass a).
+(* The passphrase reaches scrypt / PBKDF2 only as an HMAC-SHA256 key, and crypto/hmac
+   zero-pads a key of at most one block (64 bytes): trailing NUL bytes of such a
+   passphrase do not matter (finding passphrase-trailing-nul-equivalent). *)
+Fixpoint strip_trailing_nul (b : bytes) : bytes :=
+  match b with
+  | [] => []
+  | c :: t =>
+    let t' := strip_trailing_nul t in
+    if (b2n c =? 0) && (match t' with [] => true | _ => false end) then [] else c :: t'
+  end.
+Definition kdf_pass_norm (p : bytes) : bytes := if Nat.leb (length p) 64 then strip_trailing_nul p else p.
+Definition authenticates (a : acct) (p : bytes) : bool :=
+  a_exists a && bytes_eqb (kdf_pass_norm p) (kdf_pass_norm (a_pass a)).
 (* ks.unlocked[addr] present: the expire goroutine removes an `Until t` entry at time t *)
 Definition is_unlocked (now : N) (a : acct) : bool :=
   match a_lock a with Locked => false | Until t => now <? t | Forever => true end.
